@@ -18,7 +18,7 @@
 
 #define LM_TOMB    0
 #define LM_REMOVE  1
-#define LM_MAXCAP  208
+#define LM_MAXCAP  1536
 
 typedef struct { int id; int dead; uint32_t serial; } lm_ent;
 
